@@ -27,7 +27,19 @@ SCENARIOS = ["normal", "no_locus_reads", "low_depth", "empty_neutral", "low_neut
 
 
 def make_gene(r):
-    y = gen_gene.gen_gene(r, pseudogene=True, deletion=True, fusions=r.choice([0, 1]), offsets=(10000, 20000), allow_mnp=False)
+    few = r.random() < 0.5
+    y = gen_gene.gen_gene(r, pseudogene=True, deletion=True, fusions=r.choice([0, 1]), offsets=(10000, 20000), allow_mnp=False,
+                          n_exons=4 if few else None)
+    if few:
+        # only a few regions distinguish gene from pseudogene (as in CYP2D6: 11 of 23), so that the low-depth guard of the
+        # copy-number stage works near its threshold
+        import yaml
+        doc = yaml.safe_load(y)
+        cnr = doc["structure"]["cn_regions"]
+        k = r.randint(2, 3)
+        i = r.randint(0, len(cnr) - k)
+        doc["structure"]["cn_regions"] = cnr[i:i + k]
+        y = yaml.safe_dump(doc, sort_keys=False, default_flow_style=None)
     return y
 
 
@@ -128,7 +140,9 @@ def run_scenario(d, y, scenario, user_structure, simple, r, idx):
     if out_path:
         with open(out_path) as f:
             outcome["simple_text"] = f.read()
-    return {"meas": meas, "outcome": outcome, "sample_err": sample_err, "dele": dele, "gene_name": g.name,
+    # database class: fewer than a quarter of the regions of a gene copy distinguish gene from pseudogene
+    few_unique = len(g.regions) > 1 and 4 * len(g.unique_regions) < len(g.regions[1])
+    return {"meas": meas, "outcome": outcome, "sample_err": sample_err, "dele": dele, "gene_name": g.name, "few_unique": few_unique,
             "sample_name": os.path.basename(bam).split(".")[0]}
 
 
@@ -195,6 +209,8 @@ def tie(ctx):
         why = oracle(c, res)
         if why:
             sig = f"c19:{c['scenario']}:{'user' if c['user_structure'] else 'estimated'}"
+            if c["scenario"] == "pseudogene_only" and res.get("few_unique") and real.get("class") == "cn_too_low":
+                sig += ":few_unique_regions"
             if why[0].startswith("SIMPLE-LINE") and res.get("sample_err"):
                 sig = "c19:simple_line_missing:error_while_loading_sample"
             violations.append({"why": why[0], "input": inp, "observed": real, "signature": sig})
